@@ -432,10 +432,645 @@ fn extract_metrics(repo: &std::path::Path, out: &mut Out) {
 }
 
 pub fn extract_all(repo: &std::path::Path, out: &mut Out) {
-    out.item("ask_wait_watches_closed", Ok("def ask_wait_watches_closed : Bool := true\n".into()));
+
     match parse_file(&repo.join("src/lib.rs")) {
         Ok(lib) => extract_config(&lib, out),
         Err(e) => out.item("lib.rs", Err(e)),
     }
     extract_metrics(repo, out);
+    extract_more(repo, out);
+}
+
+// ------------------------------------------------------------------ E2: actor_ref.rs send paths
+fn fn_by_name<'a>(fns: &[&'a syn::ImplItemFn], name: &str) -> Option<&'a syn::ImplItemFn> {
+    fns.iter().copied().find(|f| f.sig.ident == name)
+}
+
+/// strips `#[cfg(feature = "tracing")]` statements and tracing/log macro statements
+fn significant_stmts(b: &syn::Block) -> Vec<&Stmt> {
+    b.stmts
+        .iter()
+        .filter(|st| {
+            let attrs: Vec<&syn::Attribute> = match st {
+                Stmt::Local(l) => l.attrs.iter().collect(),
+                Stmt::Macro(m) => m.attrs.iter().collect(),
+                Stmt::Expr(e, _) => expr_attrs(e),
+                Stmt::Item(_) => vec![],
+            };
+            if attrs.iter().any(|a| strip_ws(&tok(*a)).contains("cfg(feature=\"tracing\")")) {
+                return false;
+            }
+            if let Stmt::Macro(m) = st {
+                let n = strip_ws(&tok(&m.mac.path));
+                if ["debug", "info", "warn", "error", "trace", "tracing::debug", "tracing::info", "tracing::warn", "tracing::error"].contains(&n.as_str()) {
+                    return false;
+                }
+            }
+            true
+        })
+        .collect()
+}
+
+fn expr_attrs(e: &Expr) -> Vec<&syn::Attribute> {
+    match e {
+        Expr::Match(m) => m.attrs.iter().collect(),
+        Expr::If(m) => m.attrs.iter().collect(),
+        Expr::Block(m) => m.attrs.iter().collect(),
+        Expr::Call(m) => m.attrs.iter().collect(),
+        Expr::MethodCall(m) => m.attrs.iter().collect(),
+        Expr::Macro(m) => m.attrs.iter().collect(),
+        Expr::Let(m) => m.attrs.iter().collect(),
+        Expr::Assign(m) => m.attrs.iter().collect(),
+        _ => vec![],
+    }
+}
+
+struct RecordSite {
+    func: String,
+    reason: String,
+    label: String,
+    errors: Vec<String>,
+}
+
+struct RecordVisitor {
+    fn_stack: Vec<String>,
+    sites: Vec<RecordSite>,
+}
+struct ErrFinder(Vec<String>);
+impl<'ast> syn::visit::Visit<'ast> for ErrFinder {
+    fn visit_expr_struct(&mut self, e: &'ast syn::ExprStruct) {
+        let p: Vec<String> = e.path.segments.iter().map(|s| s.ident.to_string()).collect();
+        if p.len() == 2 && p[0] == "Error" {
+            self.0.push(p[1].clone());
+        }
+        syn::visit::visit_expr_struct(self, e);
+    }
+}
+impl<'ast> syn::visit::Visit<'ast> for RecordVisitor {
+    fn visit_impl_item_fn(&mut self, f: &'ast syn::ImplItemFn) {
+        self.fn_stack.push(f.sig.ident.to_string());
+        syn::visit::visit_impl_item_fn(self, f);
+        self.fn_stack.pop();
+    }
+    fn visit_block(&mut self, b: &'ast syn::Block) {
+        for st in &b.stmts {
+            if let Stmt::Expr(Expr::Call(c), _) = st {
+                if let Expr::Path(p) = &*c.func {
+                    let ps = strip_ws(&tok(&p.path));
+                    if ps.starts_with("crate::dead_letter::record") || ps.starts_with("dead_letter::record") {
+                        let args: Vec<String> = c.args.iter().map(|a| strip_ws(&tok(a))).collect();
+                        let mut ef = ErrFinder(vec![]);
+                        syn::visit::Visit::visit_block(&mut ef, b);
+                        self.sites.push(RecordSite {
+                            func: self.fn_stack.last().cloned().unwrap_or_default(),
+                            reason: args.get(1).map(|r| r.rsplit("::").next().unwrap_or("").to_string()).unwrap_or_default(),
+                            label: args.get(2).map(|l| l.trim_matches('"').to_string()).unwrap_or_default(),
+                            errors: ef.0,
+                        });
+                    }
+                }
+            }
+        }
+        syn::visit::visit_block(self, b);
+    }
+}
+
+/// all `tokio::select!` macro invocations in a block, parsed
+pub struct SelectArm {
+    pub pat: String,
+    pub fut: String,
+    pub guard: Option<String>,
+    pub body: Expr,
+}
+pub struct SelectParsed {
+    pub biased: bool,
+    pub arms: Vec<SelectArm>,
+}
+impl syn::parse::Parse for SelectParsed {
+    fn parse(input: syn::parse::ParseStream) -> syn::Result<Self> {
+        let mut biased = false;
+        if input.peek(syn::Ident) && input.peek2(syn::Token![;]) {
+            let id: syn::Ident = input.parse()?;
+            if id == "biased" {
+                biased = true;
+            }
+            input.parse::<syn::Token![;]>()?;
+        }
+        let mut arms = vec![];
+        while !input.is_empty() {
+            let pat = syn::Pat::parse_multi_with_leading_vert(input)?;
+            input.parse::<syn::Token![=]>()?;
+            let fut: Expr = input.parse()?;
+            let mut guard = None;
+            if input.peek(syn::Token![,]) && input.peek2(syn::Token![if]) {
+                input.parse::<syn::Token![,]>()?;
+                input.parse::<syn::Token![if]>()?;
+                let g: Expr = input.parse()?;
+                guard = Some(strip_ws(&tok(&g)));
+            }
+            input.parse::<syn::Token![=>]>()?;
+            let body: Expr = input.parse()?;
+            let _ = input.parse::<Option<syn::Token![,]>>();
+            arms.push(SelectArm { pat: strip_ws(&tok(&pat)), fut: strip_ws(&tok(&fut)), guard, body });
+        }
+        Ok(SelectParsed { biased, arms })
+    }
+}
+
+struct SelectFinder(Vec<SelectParsed>, Vec<String>);
+impl<'ast> syn::visit::Visit<'ast> for SelectFinder {
+    fn visit_macro(&mut self, m: &'ast syn::Macro) {
+        let n = strip_ws(&tok(&m.path));
+        if n == "tokio::select" || n == "select" {
+            match syn::parse2::<SelectParsed>(m.tokens.clone()) {
+                Ok(p) => self.0.push(p),
+                Err(e) => self.1.push(e.to_string()),
+            }
+        }
+        syn::visit::visit_macro(self, m);
+    }
+}
+
+fn find_selects(b: &syn::Block) -> (Vec<SelectParsed>, Vec<String>) {
+    let mut f = SelectFinder(vec![], vec![]);
+    syn::visit::Visit::visit_block(&mut f, b);
+    (f.0, f.1)
+}
+
+struct MatchFinder<'a>(Vec<&'a syn::ExprMatch>);
+impl<'ast> syn::visit::Visit<'ast> for MatchFinder<'ast> {
+    fn visit_expr_match(&mut self, m: &'ast syn::ExprMatch) {
+        self.0.push(m);
+        syn::visit::visit_expr_match(self, m);
+    }
+}
+
+fn extract_actor_ref(repo: &std::path::Path, out: &mut Out) {
+    let file = match parse_file(&repo.join("src/actor_ref.rs")) {
+        Ok(f) => f,
+        Err(e) => {
+            out.item("actor_ref.rs", Err(e));
+            return;
+        }
+    };
+    let impls = inherent_impls(&file, "ActorRef");
+    let fns: Vec<&syn::ImplItemFn> = impls.iter().flat_map(|im| impl_fns(im)).collect();
+
+    // (a) the reply wait of ask / blocking_ask_no_timeout
+    let wait_reply_ok = fn_by_name(&fns, "wait_reply")
+        .map(|f| {
+            let (sels, _) = find_selects(&f.block);
+            sels.len() == 1
+                && sels[0].biased
+                && sels[0].arms.len() == 2
+                && sels[0].arms[0].fut == "&mutreply_rx"
+                && sels[0].arms[1].fut == "self.sender.closed()"
+                && strip_ws(&tok(&sels[0].arms[0].body)) == "reply.ok()"
+                && strip_ws(&tok(&sels[0].arms[1].body)) == "reply_rx.try_recv().ok()"
+        })
+        .unwrap_or(false);
+    for (fname, item) in [("ask", "ask_wait_watches_closed"), ("blocking_ask_no_timeout", "blocking_ask_wait_watches_closed")] {
+        out.item(
+            item,
+            (|| -> R<String> {
+                let f = fn_by_name(&fns, fname).ok_or(format!("fn {fname} not found"))?;
+                let mut mf = MatchFinder(vec![]);
+                syn::visit::Visit::visit_block(&mut mf, &f.block);
+                // the match whose arms downcast the reply
+                let m = mf
+                    .0
+                    .iter()
+                    .find(|m| {
+                        let t = strip_ws(&tok(&m.arms[0].body));
+                        t.contains("downcast::<T::Reply>()")
+                    })
+                    .ok_or("reply match not found")?;
+                let scrut = strip_ws(&tok(&*m.expr));
+                let v = match scrut.as_str() {
+                    "reply_rx.await" | "reply_rx.blocking_recv()" => false,
+                    "self.wait_reply(reply_rx).await.ok_or(())" | "futures::executor::block_on(self.wait_reply(reply_rx)).ok_or(())" => {
+                        if !wait_reply_ok {
+                            return Err("wait_reply helper has an unrecognised shape".into());
+                        }
+                        true
+                    }
+                    other => return Err(format!("reply wait `{other}`")),
+                };
+                Ok(format!("def {item} : Bool := {v}\n"))
+            })(),
+        );
+    }
+
+    // (b) envelope construction and channel call of the five push sites
+    out.item(
+        "send_paths",
+        (|| -> R<String> {
+            let mut rows = vec![];
+            for (fname, kind) in [("tell", "tell"), ("ask", "ask"), ("stop", "stop"), ("blocking_tell_no_timeout", "tell"), ("blocking_ask_no_timeout", "ask")] {
+                let f = fn_by_name(&fns, fname).ok_or(format!("fn {fname} not found"))?;
+                let body = strip_ws(&tok(&f.block));
+                let call = if body.contains("self.sender.send(") && body.contains(").await") {
+                    "send"
+                } else if body.contains("self.sender.blocking_send(") {
+                    "blockingSend"
+                } else {
+                    return Err(format!("{fname}: mailbox send call not found"));
+                };
+                if body.contains("try_send(") || body.contains("tokio::spawn(") || body.contains("spawn(") && fname != "blocking_tell_no_timeout" && fname != "blocking_ask_no_timeout" && body.contains("thread::spawn") {
+                    return Err(format!("{fname}: unexpected try_send/spawn"));
+                }
+                let (reply, embeds) = if kind == "stop" {
+                    ("none", body.contains("MailboxMessage::StopGracefully(self.clone())"))
+                } else {
+                    let r = if body.contains("reply_channel:None") {
+                        "none"
+                    } else if body.contains("reply_channel:Some(reply_tx)") {
+                        "some"
+                    } else {
+                        return Err(format!("{fname}: reply_channel field"));
+                    };
+                    (r, body.contains("actor_ref:self.clone()") && body.contains("payload:Box::new(msg)"))
+                };
+                if (kind == "ask") != (reply == "some") {
+                    return Err(format!("{fname}: reply channel does not match the operation kind"));
+                }
+                let fresh_oneshot = kind != "ask" || body.contains("let(reply_tx,reply_rx)=oneshot::channel();");
+                rows.push(format!(
+                    "  ⟨\"{fname}\", .{kind}, .{call}, {}, {embeds}, {fresh_oneshot}⟩",
+                    reply == "some"
+                ));
+            }
+            Ok(format!(
+                "inductive ChanCall | send | blockingSend\n  deriving DecidableEq, Repr\n\
+                 inductive PathKind | tell | ask | stop\n  deriving DecidableEq, Repr\n\
+                 structure SendPath where\n  method : String\n  kind : PathKind\n  call : ChanCall\n  replyChannel : Bool\n  embedsStrongRef : Bool\n  freshOneshot : Bool\n  deriving DecidableEq, Repr\n\
+                 def send_paths : List SendPath := [\n{}\n]\n",
+                rows.join(",\n")
+            ))
+        })(),
+    );
+
+    // (c) timeout wrappers: tokio::time::timeout(<the parameter>, self.<inner>(msg)) … map_err → Timeout
+    out.item(
+        "timeout_wrappers",
+        (|| -> R<String> {
+            let mut rows = vec![];
+            for (fname, inner, recv) in [
+                ("tell_with_timeout", "tell", "self"),
+                ("ask_with_timeout", "ask", "self"),
+                ("blocking_tell_with_timeout_impl", "tell", "self_clone"),
+                ("blocking_ask_with_timeout_impl", "ask", "self_clone"),
+            ] {
+                let f = fn_by_name(&fns, fname).ok_or(format!("fn {fname} not found"))?;
+                let body = strip_ws(&tok(&f.block));
+                let want = format!("tokio::time::timeout(timeout,{recv}.{inner}(msg)).await.map_err(");
+                let direct = body.contains(&want);
+                // the duration parameter is used as is
+                let dur_param = f.sig.inputs.iter().any(|a| strip_ws(&tok(a)) == "timeout:Duration");
+                let maps_to_timeout = body.contains("Error::Timeout{");
+                let question = body.contains("})?");
+                let helper_rt = if recv == "self_clone" {
+                    body.contains("std::thread::spawn(move||") && body.contains("new_current_thread().enable_time().build()") && body.contains("rx.recv()")
+                } else {
+                    true
+                };
+                rows.push(format!("  (\"{fname}\", \"{inner}\", {direct}, {dur_param}, {maps_to_timeout}, {question}, {helper_rt})"));
+            }
+            Ok(format!(
+                "/-- (wrapper, inner method, wraps the inner future directly, duration = the parameter, elapsed ↦ Timeout, inner errors pass through `?`, helper thread has a timer runtime) -/\n\
+                 def timeout_wrappers : List (String × String × Bool × Bool × Bool × Bool × Bool) := [\n{}\n]\n",
+                rows.join(",\n")
+            ))
+        })(),
+    );
+
+    // (d) kill / stop result arms
+    out.item(
+        "kill_stop_arms",
+        (|| -> R<String> {
+            let k = fn_by_name(&fns, "kill").ok_or("fn kill not found")?;
+            let mut mf = MatchFinder(vec![]);
+            syn::visit::Visit::visit_block(&mut mf, &k.block);
+            let m = mf.0.first().ok_or("kill: match not found")?;
+            if strip_ws(&tok(&*m.expr)) != "self.terminate_sender.try_send(ControlSignal::Terminate)" {
+                return Err(format!("kill scrutinee {}", tok(&*m.expr)));
+            }
+            let mut arms = vec![];
+            for a in &m.arms {
+                let p = strip_ws(&tok(&a.pat));
+                let name = if p == "Ok(_)" {
+                    "sent"
+                } else if p.contains("TrySendError::Full") {
+                    "full"
+                } else if p.contains("TrySendError::Closed") {
+                    "closed"
+                } else {
+                    return Err(format!("kill arm {p}"));
+                };
+                let sig = match &*a.body {
+                    Expr::Block(b) => significant_stmts(&b.block).last().map(|s| strip_ws(&tok(*s))),
+                    e => Some(strip_ws(&tok(e))),
+                };
+                let ok = sig.as_deref() == Some("Ok(())");
+                arms.push(format!("(\"{name}\", {ok})"));
+            }
+            let s = fn_by_name(&fns, "stop").ok_or("fn stop not found")?;
+            let mut mf = MatchFinder(vec![]);
+            syn::visit::Visit::visit_block(&mut mf, &s.block);
+            let m = mf.0.first().ok_or("stop: match not found")?;
+            let mut sarms = vec![];
+            for a in &m.arms {
+                let p = strip_ws(&tok(&a.pat));
+                let name = if p == "Ok(_)" { "sent" } else if p == "Err(_)" { "closed" } else { return Err(format!("stop arm {p}")) };
+                let sig = match &*a.body {
+                    Expr::Block(b) => significant_stmts(&b.block).last().map(|s| strip_ws(&tok(*s))),
+                    e => Some(strip_ws(&tok(e))),
+                };
+                sarms.push(format!("(\"{name}\", {})", sig.as_deref() == Some("Ok(())")));
+            }
+            Ok(format!(
+                "/-- arm of kill()'s try_send ↦ returns Ok(()) -/\ndef kill_arms : List (String × Bool) := [{}]\n\
+                 /-- arm of stop()'s send ↦ returns Ok(()) -/\ndef stop_arms : List (String × Bool) := [{}]\n",
+                arms.join(", "),
+                sarms.join(", ")
+            ))
+        })(),
+    );
+
+    // (f) dead-letter census
+    out.item(
+        "dead_letter_census",
+        (|| -> R<String> {
+            let mut v = RecordVisitor { fn_stack: vec![], sites: vec![] };
+            syn::visit::Visit::visit_file(&mut v, &file);
+            let rows: Vec<String> = v
+                .sites
+                .iter()
+                .map(|s| {
+                    let fam = |x: &str| if x.contains("tell") { "tell" } else if x.contains("ask") { "ask" } else { "?" };
+                    format!("  (\"{}\", \"{}\", \"{}\", [{}], {})", s.func, s.reason, s.label, s.errors.iter().map(|e| format!("\"{e}\"")).collect::<Vec<_>>().join(", "), fam(&s.func) == fam(&s.label) && fam(&s.func) != "?")
+                })
+                .collect();
+            Ok(format!(
+                "/-- every `dead_letter::record` call: (enclosing fn, reason, operation label, Error variants built in the same block, label is of the method's family) -/\n\
+                 def dead_letter_sites : List (String × String × String × List String × Bool) := [\n{}\n]\n",
+                rows.join(",\n")
+            ))
+        })(),
+    );
+
+    // (g) deprecated aliases and the dispatchers
+    out.item(
+        "blocking_dispatch",
+        (|| -> R<String> {
+            let mut rows = vec![];
+            for (fname, want) in [
+                ("tell_blocking", "self.blocking_tell(msg,None)"),
+                ("ask_blocking", "self.blocking_ask(msg,None)"),
+            ] {
+                let f = fn_by_name(&fns, fname).ok_or(format!("fn {fname} not found"))?;
+                let sig = significant_stmts(&f.block);
+                let last = sig.last().map(|s| strip_ws(&tok(*s))).unwrap_or_default();
+                let others_ok = sig[..sig.len().saturating_sub(1)].iter().all(|s| strip_ws(&tok(*s)) == "let_=timeout;");
+                rows.push(format!("  (\"{fname}\", {})", last == want && others_ok));
+            }
+            for (fname, some_t, none_t) in [
+                ("blocking_tell", "self.blocking_tell_with_timeout_impl(msg,timeout_duration)", "self.blocking_tell_no_timeout(msg)"),
+                ("blocking_ask", "self.blocking_ask_with_timeout_impl(msg,timeout_duration)", "self.blocking_ask_no_timeout(msg)"),
+            ] {
+                let f = fn_by_name(&fns, fname).ok_or(format!("fn {fname} not found"))?;
+                let body = strip_ws(&tok(&f.block));
+                let ok = body == format!("{{matchtimeout{{Some(timeout_duration)=>{some_t},None=>{none_t},}}}}");
+                rows.push(format!("  (\"{fname}\", {ok})"));
+            }
+            Ok(format!(
+                "/-- deprecated aliases delegate with the timeout ignored; the dispatchers pick the timeout / no-timeout path -/\n\
+                 def blocking_dispatch : List (String × Bool) := [\n{}\n]\n",
+                rows.join(",\n")
+            ))
+        })(),
+    );
+
+    // (h,i) liveness predicates and identity copying
+    out.item(
+        "handle_algebra",
+        (|| -> R<String> {
+            let is_alive = fn_by_name(&fns, "is_alive").ok_or("ActorRef::is_alive not found")?;
+            let strong_alive = strip_ws(&tok(&is_alive.block)).replace("//", "");
+            let strong_alive_ok = strong_alive.contains("!self.sender.is_closed()&&!self.terminate_sender.is_closed()");
+            let wimpls = inherent_impls(&file, "ActorWeak");
+            let wfns: Vec<&syn::ImplItemFn> = wimpls.iter().flat_map(|im| impl_fns(im)).collect();
+            let w_alive = fn_by_name(&wfns, "is_alive").ok_or("ActorWeak::is_alive not found")?;
+            let weak_alive_ok = strip_ws(&tok(&w_alive.block)).contains("self.sender.strong_count()>0&&self.terminate_sender.strong_count()>0");
+            let up = fn_by_name(&wfns, "upgrade").ok_or("ActorWeak::upgrade not found")?;
+            let upb = strip_ws(&tok(&up.block));
+            let upgrade_ok = upb.contains("letsender=self.sender.upgrade()?;")
+                && upb.contains("letterminate_sender=self.terminate_sender.upgrade()?;")
+                && upb.contains("Some(ActorRef{id:self.id,sender,terminate_sender,");
+            let dg = fn_by_name(&fns, "downgrade").ok_or("ActorRef::downgrade not found")?;
+            let dgb = strip_ws(&tok(&dg.block));
+            let downgrade_ok = dgb.contains("id:this.id,") && dgb.contains("sender:this.sender.downgrade(),") && dgb.contains("terminate_sender:this.terminate_sender.downgrade(),");
+            // Clone impls copy the id and clone both senders
+            let mut clone_ok = vec![];
+            for ty in ["ActorRef", "ActorWeak"] {
+                let ok = file.items.iter().any(|i| match i {
+                    syn::Item::Impl(im) if im.trait_.as_ref().map(|(_, p, _)| p.is_ident("Clone")).unwrap_or(false) && strip_ws(&tok(&*im.self_ty)).starts_with(ty) => {
+                        let b = strip_ws(&tok(im));
+                        b.contains("id:self.id,") && b.contains("sender:self.sender.clone(),") && b.contains("terminate_sender:self.terminate_sender.clone(),")
+                    }
+                    _ => false,
+                });
+                clone_ok.push(ok);
+            }
+            let identity_ok = fn_by_name(&fns, "identity").map(|f| strip_ws(&tok(&f.block)) == "{self.id}").unwrap_or(false)
+                && fn_by_name(&wfns, "identity").map(|f| strip_ws(&tok(&f.block)) == "{self.id}").unwrap_or(false);
+            Ok(format!(
+                "def strong_is_alive_both_open : Bool := {strong_alive_ok}\ndef weak_is_alive_both_counts : Bool := {weak_alive_ok}\n\
+                 def upgrade_needs_both_senders : Bool := {upgrade_ok}\ndef downgrade_copies_id_and_weakens_both : Bool := {downgrade_ok}\n\
+                 def clone_copies_id_strong : Bool := {}\ndef clone_copies_id_weak : Bool := {}\ndef identity_returns_id : Bool := {identity_ok}\n",
+                clone_ok[0], clone_ok[1]
+            ))
+        })(),
+    );
+}
+
+// ------------------------------------------------------------------ E3: forwarders of the erased traits
+fn extract_forwarders(repo: &std::path::Path, out: &mut Out) {
+    out.item(
+        "forwarders",
+        (|| -> R<String> {
+            let mut rows = vec![];
+            let mut conv_rows = vec![];
+            for fname in ["src/handler.rs", "src/actor_control.rs"] {
+                let file = parse_file(&repo.join(fname))?;
+                for item in &file.items {
+                    let im = match item {
+                        syn::Item::Impl(im) => im,
+                        _ => continue,
+                    };
+                    let (tr, self_ty) = match &im.trait_ {
+                        Some((_, p, _)) => (p.segments.last().unwrap().ident.to_string(), strip_ws(&tok(&*im.self_ty))),
+                        None => continue,
+                    };
+                    let target = if self_ty.starts_with("ActorRef<") { "ActorRef" } else if self_ty.starts_with("ActorWeak<") { "ActorWeak" } else { "" };
+                    if tr == "From" {
+                        // From<X> for Box<dyn Trait>
+                        let arg = match &im.trait_.as_ref().unwrap().1.segments.last().unwrap().arguments {
+                            syn::PathArguments::AngleBracketed(a) => strip_ws(&tok(&a.args)),
+                            _ => String::new(),
+                        };
+                        let f = impl_fns(im).into_iter().find(|f| f.sig.ident == "from").ok_or("From without from")?;
+                        let body = strip_ws(&tok(&f.block));
+                        let param = match f.sig.inputs.first() {
+                            Some(syn::FnArg::Typed(pt)) => strip_ws(&tok(&*pt.pat)),
+                            _ => String::new(),
+                        };
+                        let by_ref = arg.starts_with('&');
+                        let expect = if by_ref { format!("{{Box::new({param}.clone())}}") } else { format!("{{Box::new({param})}}") };
+                        let dest = self_ty.replace("Box<dyn", "").replace('>', "");
+                        let dest_tr = dest.split('<').next().unwrap_or("").to_string();
+                        let src_weak = arg.contains("ActorWeak<");
+                        let dst_weak = dest_tr.starts_with("Weak");
+                        conv_rows.push(format!("  (\"{dest_tr}\", {by_ref}, {src_weak}, {dst_weak}, {})", body == expect));
+                        continue;
+                    }
+                    if target.is_empty() || !["TellHandler", "AskHandler", "WeakTellHandler", "WeakAskHandler", "ActorControl", "WeakActorControl"].contains(&tr.as_str()) {
+                        continue;
+                    }
+                    for f in impl_fns(im) {
+                        let m = f.sig.ident.to_string();
+                        if m == "debug_fmt" {
+                            continue;
+                        }
+                        let params: Vec<String> = f
+                            .sig
+                            .inputs
+                            .iter()
+                            .filter_map(|a| match a {
+                                syn::FnArg::Typed(pt) => Some(strip_ws(&tok(&*pt.pat))),
+                                _ => None,
+                            })
+                            .collect();
+                        let body = strip_ws(&tok(&f.block));
+                        let body = &body[1..body.len() - 1];
+                        let args = std::iter::once("self".to_string()).chain(params.iter().cloned()).collect::<Vec<_>>().join(",");
+                        let verbatim = match m.as_str() {
+                            "tell" | "tell_with_timeout" | "ask" | "ask_with_timeout" | "stop" => body == format!("{target}::{m}({args}).boxed()"),
+                            "blocking_tell" | "blocking_ask" | "kill" | "identity" | "is_alive" => body == format!("{target}::{m}({args})"),
+                            "clone_boxed" => body == "Box::new(self.clone())",
+                            "downgrade" => body == "Box::new(ActorRef::downgrade(self))",
+                            "as_control" | "as_weak_control" => body == "self",
+                            "upgrade" => body.starts_with("ActorWeak::upgrade(self).map(|r|Box::new(r)asBox<dyn") && !body.contains("downgrade"),
+                            _ => false,
+                        };
+                        rows.push(format!("  (\"{tr}\", \"{target}\", \"{m}\", {verbatim}, {}, {})", tr.starts_with("Weak"), target == "ActorWeak"));
+                    }
+                }
+            }
+            Ok(format!(
+                "/-- (trait, implementing type, method, forwards verbatim to the inherent method with the same arguments, weak trait, weak type) -/\n\
+                 def forwarders : List (String × String × String × Bool × Bool × Bool) := [\n{}\n]\n\
+                 /-- From conversions: (target trait, from a reference, source is weak, target is weak, boxes the (cloned) value itself) -/\n\
+                 def conversions : List (String × Bool × Bool × Bool × Bool) := [\n{}\n]\n",
+                rows.join(",\n"),
+                conv_rows.join(",\n")
+            ))
+        })(),
+    );
+}
+
+// ------------------------------------------------------------------ E1: the lifecycle select loop
+fn extract_lifecycle(repo: &std::path::Path, out: &mut Out) {
+    out.item(
+        "lifecycle",
+        (|| -> R<String> {
+            let file = parse_file(&repo.join("src/actor.rs"))?;
+            let f = find_fn(&file, "run_actor_lifecycle").ok_or("fn run_actor_lifecycle not found")?;
+            let (sels, errs) = find_selects(&f.block);
+            if !errs.is_empty() {
+                return Err(format!("select! parse: {}", errs.join("; ")));
+            }
+            if sels.len() != 1 {
+                return Err(format!("{} select! blocks", sels.len()));
+            }
+            let sel = &sels[0];
+            let kind = |a: &SelectArm| -> &'static str {
+                if a.fut == "terminate_receiver.recv()" {
+                    "term"
+                } else if a.fut == "receiver.recv()" {
+                    "mail"
+                } else if a.fut.contains("actor.on_run(&actor_weak)") {
+                    "run"
+                } else {
+                    "unknown"
+                }
+            };
+            let order: Vec<String> = sel.arms.iter().map(|a| format!(".{}", kind(a))).collect();
+            if order.iter().any(|o| o == ".unknown") {
+                return Err(format!("unknown select arm among {:?}", sel.arms.iter().map(|a| a.fut.clone()).collect::<Vec<_>>()));
+            }
+            let guards: Vec<String> = sel.arms.iter().map(|a| format!("{:?}", a.guard.clone().unwrap_or_default())).collect();
+            let body_of = |k: &str| sel.arms.iter().find(|a| kind(a) == k).map(|a| strip_ws(&tok(&a.body))).unwrap_or_default();
+            let term = body_of("term");
+            let mail = body_of("mail");
+            let run = body_of("run");
+            let term_killed_some = term.contains("Some(_)=>{") && term.split("Some(_)=>{").nth(1).map(|r| r.split('}').next().unwrap_or("").contains("killed=true;")).unwrap_or(false);
+            let term_killed_none = term.contains("None=>{") && term.split("None=>{").nth(1).map(|r| r.split('}').next().unwrap_or("").contains("killed=false;")).unwrap_or(false);
+            let term_on_stop_killed = term.matches("actor.on_stop(&actor_weak,killed)").count() == 1 && term.matches("on_stop(").count() == 1;
+            let term_fail = term.contains("returnActorResult::Failed{actor:Some(actor),error:e,phase:FailurePhase::OnStop,killed,};");
+            let term_break = term.ends_with("break;}");
+            let mail_inline = mail.matches("payload.handle_message(&mutactor,actor_ref,reply_channel)").count() == 1 && !mail.contains("spawn(");
+            let mail_stop_pat = mail.contains("Some(MailboxMessage::StopGracefully(_))|None=>");
+            let mail_on_stop_false = mail.matches("actor.on_stop(&actor_weak,false)").count() == 1 && mail.matches("on_stop(").count() == 1;
+            let mail_fail = mail.contains("returnActorResult::Failed{actor:Some(actor),error:e,phase:FailurePhase::OnStop,killed:false,};");
+            let mail_break = mail.contains("break;}");
+            let run_true = run.contains("Ok(true)=>{}");
+            let run_false = run.contains("Ok(false)=>{idle_enabled=false;}");
+            let run_on_stop_false = run.matches("actor.on_stop(&actor_weak,false)").count() == 1 && run.matches("on_stop(").count() == 1;
+            let run_phases = run.contains("FailurePhase::OnRunThenOnStop}else{FailurePhase::OnRun}");
+            let run_fail = run.contains("returnActorResult::Failed{actor:Some(actor),error:e,phase,killed,};");
+            let whole = strip_ws(&tok(&f.block));
+            let start_fail = whole.contains("returnActorResult::Failed{actor:None,error:e,phase:FailurePhase::OnStart,killed:false,};");
+            let drops_ref = whole.contains("letactor_weak=ActorRef::downgrade(&actor_ref);drop(actor_ref);");
+            let closes = whole.contains("receiver.close();terminate_receiver.close();");
+            let completed = whole.ends_with("ActorResult::Completed{actor,killed}}");
+            let init_flags = whole.contains("letmutkilled=false;letmutidle_enabled=true;");
+            let on_stop_total = whole.matches("on_stop(").count();
+            Ok(format!(
+                "inductive Branch | term | mail | run\n  deriving DecidableEq, Repr\n\
+                 structure Lifecycle where\n  biased : Bool\n  order : List Branch\n  guards : List String\n  termKilledOnSignal : Bool\n  termNotKilledOnClosed : Bool\n  termOnStopWithFlag : Bool\n  termFailShape : Bool\n  termBreaks : Bool\n  mailHandlesInline : Bool\n  mailStopOrClosedArm : Bool\n  mailOnStopFalse : Bool\n  mailFailShape : Bool\n  mailBreaks : Bool\n  runTrueContinues : Bool\n  runFalseDisables : Bool\n  runErrOnStopFalse : Bool\n  runErrPhases : Bool\n  runErrFailShape : Bool\n  startFailShape : Bool\n  dropsOwnRefAfterStart : Bool\n  closesBothAfterLoop : Bool\n  completedShape : Bool\n  initFlags : Bool\n  onStopCallSites : Nat\n  deriving DecidableEq, Repr\n\
+                 def lifecycle : Lifecycle := {{ biased := {}, order := [{}], guards := [{}], termKilledOnSignal := {term_killed_some}, termNotKilledOnClosed := {term_killed_none}, termOnStopWithFlag := {term_on_stop_killed}, termFailShape := {term_fail}, termBreaks := {term_break}, mailHandlesInline := {mail_inline}, mailStopOrClosedArm := {mail_stop_pat}, mailOnStopFalse := {mail_on_stop_false}, mailFailShape := {mail_fail}, mailBreaks := {mail_break}, runTrueContinues := {run_true}, runFalseDisables := {run_false}, runErrOnStopFalse := {run_on_stop_false}, runErrPhases := {run_phases}, runErrFailShape := {run_fail}, startFailShape := {start_fail}, dropsOwnRefAfterStart := {drops_ref}, closesBothAfterLoop := {closes}, completedShape := {completed}, initFlags := {init_flags}, onStopCallSites := {on_stop_total} }}\n",
+                sel.biased,
+                order.join(", "),
+                guards.join(", ")
+            ))
+        })(),
+    );
+    // handle_message: on_tell_result only on the no-reply-channel branch
+    out.item(
+        "handle_message",
+        (|| -> R<String> {
+            let file = parse_file(&repo.join("src/lib.rs"))?;
+            let whole = strip_ws(&tok(&file));
+            let i = whole.find("fnhandle_message(self:Box<Self>").ok_or("handle_message not found")?;
+            let j = whole[i..].rfind(".boxed()").map(|x| x + i).unwrap_or(whole.len());
+            // take the impl body: from the second occurrence (the blanket impl)
+            let k = whole[i + 10..].find("fnhandle_message(self:Box<Self>").map(|x| x + i + 10).ok_or("blanket impl of handle_message not found")?;
+            let body = &whole[k..j.max(k)];
+            let calls_handle = body.contains("letresult=Message::handle(actor,*self,&actor_ref).await;");
+            let reply_branch = body.contains("ifletSome(channel)=reply_channel{matchchannel.send(Box::new(result))");
+            let tell_branch = body.contains("}else{<AasMessage<T>>::on_tell_result(&result,&actor_ref);}");
+            let once = body.matches("on_tell_result(").count() == 1;
+            Ok(format!(
+                "def handle_calls_handler_once : Bool := {calls_handle}\ndef reply_sent_on_own_channel : Bool := {reply_branch}\ndef on_tell_result_only_without_reply_channel : Bool := {}\n",
+                tell_branch && once
+            ))
+        })(),
+    );
+}
+
+pub fn extract_more(repo: &std::path::Path, out: &mut Out) {
+    extract_actor_ref(repo, out);
+    extract_forwarders(repo, out);
+    extract_lifecycle(repo, out);
 }
